@@ -323,8 +323,79 @@ def with_services(rng, case, other):
     return dict(case, ops=ops)
 
 
+HUGE_WDUR = ["max", "max", "max", "4000000000000000", "18446744073709551"]
+
+
+def unbounded_window(case):
+    """a dimension of the configuration VALUES: the time window "that never forgets" — `sliding_window_duration(Duration::MAX)`
+    (`wdur=max`; the natural spelling, and a duration that cannot be subtracted from the monotonic clock) or a duration far
+    beyond any history (ten-digit numbers of seconds). 12 % of the time-based cases, whatever generator made them: the
+    operations stay as they were planned for the ordinary duration (bursts, advances aimed at the old wdur +-1, half-open
+    episodes, overrides), only nothing expires any more. The choice is drawn from a generator of its own, seeded by the case,
+    so that the stream of all other cases is what it was."""
+    words = case["header"].split()
+    if "wtype=time" not in words or not any(w.startswith("wdur=") for w in words):
+        return case
+    import random
+    import zlib
+    own = random.Random(zlib.crc32(("\n".join([case["header"]] + list(case["ops"]))).encode()))
+    if own.random() >= 0.12:
+        return case
+    v = own.choice(HUGE_WDUR)
+    return dict(case, header=" ".join("wdur=%s" % v if w.startswith("wdur=") else w for w in words))
+
+
+CONTEND = [("rejected", "open"), ("rejected", "open"), ("rejected", "open"), ("transition", "open"), ("transition", "open"),
+           ("transition", "closed"), ("permitted", "closed"), ("success", "closed"), ("failure", "closed"), ("rejected", "closed")]
+
+
+def contended(case):
+    """a dimension of WHO ELSE is at the breaker: `manual contend ev=<listener> st=<open|closed>` (harness/src/mw_circuit.rs) — a
+    request made on one OS thread while ANOTHER THREAD is inside the circuit's critical section (its event listener is still
+    running under the breaker's mutex), on a breaker of its own built from the case's configuration and fallback setting.
+    8 % of the cases, one or two scenarios anywhere in the history (they do not touch the case's breaker; the model has no
+    step for them). Drawn from a generator of its own seeded by the case."""
+    import random
+    import zlib
+    own = random.Random(zlib.crc32(("contend\n" + "\n".join([case["header"]] + list(case["ops"]))).encode()))
+    if own.random() >= 0.08:
+        return case
+    ops = list(case["ops"])
+    for _ in range(own.choice([1, 1, 2])):
+        ev, st = own.choice(CONTEND)
+        ops.insert(own.randint(0, len(ops)), "manual contend ev=%s st=%s" % (ev, st))
+    return dict(case, ops=ops)
+
+
+def mon_contend(case, lines, meta):
+    """`#contend` lines (a request B polled once while another thread, A, is parked in a listener INSIDE the circuit's critical
+    section): C03 itself — while the breaker is observed open (`is_open()` read at that moment) B's request has not reached the
+    wrapped service; and if A is itself a rejected call (the breaker is open before, during and after), B never reaches it and
+    is answered with the open-circuit error (or the fallback)."""
+    for _, m in meta or ():
+        w = m.split()
+        if not w or w[0] != "#contend":
+            continue
+        kv = kvs(m)
+        if kv.get("parked") != "1":
+            continue
+        what = "a request made while another thread was inside the circuit's critical section (its on_%s listener still running, breaker %s, is_open()=%s)" % (
+            kv.get("ev"), kv.get("st"), kv.get("open_during"))
+        if kv.get("open_during") == "1" and kv.get("inner_during") != "0":
+            return "%s reached the wrapped service on its first poll through an open breaker: %s" % (what, m)
+        # A was itself rejected (its section changed nothing) and nobody else acts on this breaker, the clock stands still: B meets
+        # the same open breaker. (After an override by A, or calls that were recorded, the state B meets is the model's business.)
+        if kv.get("open_during") == "1" and kv.get("open_after") == "1" and kv.get("a") in ("err:open", "ok:fallback"):
+            if kv.get("b_inner") != "0" or kv.get("b") not in ("err:open", "ok:fallback"):
+                return "%s was not answered with the open-circuit error although the breaker stayed open: %s" % (what, m)
+        if kv.get("b") == "stuck" or kv.get("a") == "panic":
+            return "%s: the scenario did not complete: %s" % (what, m)
+    return None
+
+
 def finalize(rng, case, multi_ok=True, gen_other=None):
     """the dimensions of how the breaker is built and how its handles are used, applied to a generated case"""
+    case = contended(unbounded_window(case))
     hdr = case["header"]
     r = rng.random()
     if r < 0.4:
@@ -1314,6 +1385,12 @@ def _wait_of(cfg):
     return 10 ** 30 if w == "max" else int(w)
 
 
+def _wdur_of(cfg):
+    """`wdur=max`: sliding_window_duration(Duration::MAX) — no recorded outcome ever leaves the window"""
+    w = cfg.get("wdur", "1000")
+    return 10 ** 30 if w == "max" else int(w)
+
+
 def frac(s, d):
     a, b = (s or d).split("/")
     return int(a), int(b)
@@ -1588,7 +1665,7 @@ class Spec:
     def __init__(self, cfg):
         self.count = cfg.get("wtype", "count") != "time"
         self.size = int(cfg.get("size", "10"))
-        self.wdur = int(cfg.get("wdur", "1000"))
+        self.wdur = _wdur_of(cfg)
         self.min = int(cfg.get("min", self.size))
         self.fr = frac(cfg.get("fr"), "1/2")
         self.slow = int(cfg["slow"]) if "slow" in cfg else None
@@ -2063,7 +2140,8 @@ COMMON = {
 
 SPECS = {
     "C03": dict(COMMON, module="TR.Props.C03", gen=gen_c03, all_transitions=ALL_TR + TR_TEARDOWN + TR_BUILD + TR_READY,
-                monitors=[("c03-open-shields", per_service(mon_c03)), ("c03-answered-at-once", per_service(mon_at_once))],
+                monitors=[("c03-open-shields", per_service(mon_c03)), ("c03-answered-at-once", per_service(mon_at_once)),
+                          ("c03-open-shields-contended", mon_contend)],
                 rule="concurrent callers on clones (arrive/poll/drop/adv/settle/manual/probe), opening by failure rate, slow-call rate and "
                      "force_open, advances biased to wait-1/wait/wait+1; fallbacks that are futures of their own (fb=<lat>:<ok|errK|panic|never>) left pending "
                      "while other callers arrive, earlier calls are recorded, views are probed and manual overrides issued; callers arriving from inside the "
@@ -2089,7 +2167,8 @@ SPECS = {
                            "open and does start an inner call, between two transition events (no_inner_call_while_no_transition); calls admitted earlier complete while open "
                            "(running_completes_while_open); a listener reading state_sync() in its callback reads the state being left (listener_sees_state_before_transition)."),
     "C04": dict(COMMON, module="TR.Props.C04", gen=gen_c04, all_transitions=ALL_TR + TR_BOUNDARY + TR_EXPIRY + TR_BUILD,
-                monitors=[("c04-documented-machine", per_service(mon_c04)), ("c04-halfopen-trials", per_service(mon_c09))],
+                monitors=[("c04-documented-machine", per_service(mon_c04)), ("c04-halfopen-trials", per_service(mon_c09)),
+                          ("c04-open-shields-contended", mon_contend)],
                 rule="sequential histories (length 10..300) over success/failure/slow success/slow failure/wait/force_open/force_closed/reset with "
                      "probe views after every step; both window types; thresholds incl. 0 and 1; min calls below/equal/above the window; three classifiers; "
                      "25%: exact-boundary configurations (thresholds with 2-3 decimals, windows up to 100, count- and time-based, failure and slow-call rate) whose "
@@ -2117,7 +2196,8 @@ SPECS = {
                            "whatever its outcome, opens the breaker exactly when the PRUNED window plus that outcome meets the condition (expiry_decides_next_recording), so a "
                            "success trips on a rate raised by expiry alone (success_trips_on_expired_window)."),
     "C09": dict(COMMON, module="TR.Props.C09", gen=gen_c09, all_transitions=ALL_TR + TR_TEARDOWN + TR_EPISODES + TR_BUILD + TR_READY,
-                monitors=[("c09-halfopen-trials", per_service(mon_c09)), ("c09-excess-answered-at-once", per_service(mon_at_once))],
+                monitors=[("c09-halfopen-trials", per_service(mon_c09)), ("c09-excess-answered-at-once", per_service(mon_at_once)),
+                          ("c09-open-shields-contended", mon_contend)],
                 rule="breaker driven to half-open, then many callers arriving together with slow trial calls, mixed outcomes, drops and panics of "
                      "trial futures; both window types; 20%: several half-open episodes in one history, ended in the middle by reset / force_closed / force_open / a failing "
                      "trial with trials still in flight, the last episode filled, then the leftovers dropped or completed with late callers after each; callers arriving "
